@@ -163,7 +163,6 @@ func RunC15(c *Ctx, r *Report) {
 	// re-serialisation emits, so this is inside the property's domain only for malformed packets.
 }
 
-
 // akaKeepsAllRule: the receiver computes the code over a re-serialisation of what it decoded, so the decoder
 // must keep every attribute it consumes: on every way round the attribute loop the attribute just read is
 // entered into the attribute map. A path that goes on to the next attribute without storing the current one
